@@ -83,6 +83,20 @@ def graph_relations(graph_text: str) -> dict:
     return steps
 
 
+def file_creators(graph_text: str) -> dict:
+    """path -> label of the step that created (declared) the file node, for attached file nodes with a step creator"""
+    out = {}
+    for raw_key, node in e3.parse_graph(graph_text).items():
+        key = _strip(raw_key)
+        if not key.startswith("file:") or raw_key.strip().startswith("("):
+            continue
+        for k in node["rel"].get("creator", []):
+            k = _strip(k)
+            if k.startswith("step:"):
+                out[key[5:]] = k[5:]
+    return out
+
+
 def parse_nglob_line(line: str) -> tuple[str, dict]:
     """``"pattern (name=sub name2=sub2)"`` as printed by Step.format_properties -> (pattern, subs)."""
     line = line.strip()
@@ -138,6 +152,30 @@ def optional_upstream_shape(label: str, executed: list, pre: dict, post: dict, _
             found.append(o)
         elif _depth < 8 and _idle_optional(o, pre) and optional_upstream_shape(o, executed, pre, post, _depth + 1):
             found.append(o)
+    return found
+
+
+AMENDED_STATIC_SIGNATURE = ("oracle:cone:amended-static-input-redeclared-by-a-rerun-declarer:"
+                            "validated-before-reconfirmed:executed-outside-cone")
+
+
+def amended_static_redeclared(label: str, executed: list, pre: dict, creators: dict) -> list:
+    """The circumstance of finding C04-amended-static-redeclared, and nothing else: `label` was attached, has AMENDED
+    inputs, and one of them is a STATIC file (no step produces it) whose declarer - or a creator up its chain - is
+    executed by the rebuild: the file is detached by the declarer's reset, declared again and confirmed anew by a hash
+    job; when the step is handed out for validation before that confirmation (another input confirmed first made it
+    PENDING), the digest over the available inputs differs and the step loses its hash.  Returns those inputs."""
+    a = pre.get(label)
+    if a is None or a["detached"] or not a["dyn_inputs"]:
+        return []
+    exe = set(executed)
+    found = []
+    for p in sorted(a["dyn_inputs"]):
+        if any(p in i["outputs"] for i in pre.values()):
+            continue
+        c = creators.get(p)
+        if c is not None and ({c} | _ancestors(c, pre)) & exe:
+            found.append(p)
     return found
 
 
@@ -1137,6 +1175,99 @@ def run_overtaken(item: dict) -> dict:
     return report
 
 
+# ---------------------------------------------------------------------------------------------
+# Fixed witness: an amended static input is declared again by a rerun plan and confirmed late
+# ---------------------------------------------------------------------------------------------
+
+
+def amended_static_item() -> dict:
+    """plan.py declares the static files s1.txt, s2.txt and a sub-plan ./p1.py, which declares the script step ./w.py;
+    ./w.py AMENDS s1.txt and s2.txt.  The edit appends a byte to plan.py: the plan is rerun, declares everything as
+    before (./p1.py and ./w.py are recycled); s1.txt and s2.txt are detached by the reset and declared again."""
+    scripts = {"plan.py": [{"op": "static", "paths": ["s1.txt", "s2.txt", "p1.py"]}, {"op": "plan", "label": "./p1.py"}],
+               "p1.py": [{"op": "static", "paths": ["w.py"]},
+                         {"op": "run", "label": "./w.py", "inp": [], "out": ["ow.txt"]}],
+               "w.py": [{"op": "amend", "inp": ["s1.txt", "s2.txt"]},
+                        {"op": "read", "paths": ["s1.txt", "s2.txt"], "required": True}, {"op": "auto"}]}
+    project = {"sources": {"s1.txt": "static 1\n", "s2.txt": "static 2\n"},
+               "program": {"scripts": scripts, "commands": {}}, "env": {}}
+    return {"seed": 2, "flavour": "restart", "kind": "amended_static", "project": project, "history": [],
+            "cone_edits": [[{"op": "rawappend", "path": "plan.py"}], ["plan.py"]], "cone_schedule": None}
+
+
+def run_amended_static(item: dict) -> dict:
+    """The rebuild with the confirmation of s2.txt held (hook on the real Executor._run_hash_job, asyncio event) until
+    the validation job of ./w.py has ended: ./w.py is PENDING after s1.txt was confirmed anew and is handed out while
+    s2.txt is still UNCONFIRMED."""
+    import asyncio
+    import contextlib
+    from stepup.core.executor import Executor
+    project = e3.Project.from_json(item["project"])
+    edits, edited = item["cone_edits"]
+    report = {"seed": item["seed"], "flavour": "restart", "kind": "amended_static", "failures": [], "stats": {},
+              "nbuilds": 0, "project": project.to_json(), "history": [], "cone_edits": [edits, edited]}
+    kw = {"resources": "tok:1", "njob": 2, "timeout": item.get("timeout", 90)}
+    proj = project.clone()
+    state = {"ev": None, "held": 0, "validated": 0}
+
+    def event():
+        if state["ev"] is None:
+            state["ev"] = asyncio.Event()
+        return state["ev"]
+    orig_hash, orig_val = Executor._run_hash_job, Executor.validate_dynamic_job
+
+    async def hash_hook(self, hash_job):
+        if hash_job.path == "s2.txt" and hash_job.cause.name == "CONFIRMED" and not event().is_set():
+            state["held"] += 1
+            try:
+                await asyncio.wait_for(event().wait(), 5)
+            except asyncio.TimeoutError:
+                pass
+        return await orig_hash(self, hash_job)
+
+    async def val_hook(self, job_i, step, *args, **kw2):
+        try:
+            return await orig_val(self, job_i, step, *args, **kw2)
+        finally:
+            if step.label == "./w.py":
+                state["validated"] += 1
+                event().set()
+    try:
+        with tempfile.TemporaryDirectory(prefix="c04-ams-") as root:
+            proj.materialise(root)
+            ref = e3.build(root, proj.program, env={}, **kw)
+            report["nbuilds"] += 1
+            if ref.returncode != OK_RC or ref.error:
+                report["stats"]["amended_static:first-build-failed"] = 1
+                return report
+            apply_edits(proj, root, edits)
+            with contextlib.ExitStack() as stack:
+                Executor._run_hash_job, Executor.validate_dynamic_job = hash_hook, val_hook
+                stack.callback(setattr, Executor, "_run_hash_job", orig_hash)
+                stack.callback(setattr, Executor, "validate_dynamic_job", orig_val)
+                new = e3.build(root, proj.program, env={}, **kw)
+            report["nbuilds"] += 1
+            pre, post = graph_relations(ref.graph), graph_relations(new.graph)
+            executed = new.executed()
+            report["cone_log"] = {"ran": sorted(set(executed)), "held": state["held"], "validated": state["validated"]}
+            bad = unjustified(executed, edited, pre, post)
+            creators = file_creators(ref.graph)
+            for l in bad:
+                redecl = amended_static_redeclared(l, executed, pre, creators)
+                sig = AMENDED_STATIC_SIGNATURE if redecl else "oracle:cone:restart:executed-outside-cone"
+                report["failures"].append({"signature": sig, "detail": f"edited {edited}; executed {executed}; not justified: "
+                                           f"{l} (amended static inputs declared again: {redecl})",
+                                           "unjustified": [l], "redeclared_inputs": {l: redecl}, "executed": executed})
+            if new.returncode != OK_RC or new.error:
+                report["failures"].append({"signature": "oracle:cone:restart:amended-static:build-failed",
+                                           "detail": f"rc {new.returncode} {new.error}"})
+    except e3.E3Timeout as exc:
+        report["timeout"] = f"{exc.args[0]} {exc.args[1] if len(exc.args) > 1 else ''}"
+    except e3.E3Error as exc:
+        report["timeout"] = f"E3Error: {exc}"
+    return report
+
+
 def build_kw(item: dict) -> dict:
     return {"resources": "tok:1", "njob": item.get("njob", 1), "timeout": item.get("timeout", 60)}
 
@@ -1150,6 +1281,8 @@ def run_case(item: dict) -> dict:
         return run_absorbed(item)
     if item.get("kind") == "overtaken":
         return run_overtaken(item)
+    if item.get("kind") == "amended_static":
+        return run_amended_static(item)
     seed = item["seed"]
     flavour = item["flavour"]
     rng = random.Random(f"c04-e3-{seed}-{flavour}")
@@ -1280,7 +1413,17 @@ def _cone_check(item, rng, proj, ref, rebuild, flavour, report, count, fail, roo
         # the circumstance of the known finding D38 and nothing else goes under its signature
         needed_by = {l: optional_upstream_shape(l, executed, pre, post) for l in bad}
         d38 = sorted(l for l in bad if needed_by[l])
-        rest = sorted(l for l in bad if not needed_by[l])
+        creators = file_creators(ref.graph)
+        redecl = {l: amended_static_redeclared(l, executed, pre, creators) for l in bad if not needed_by[l]}
+        ams = sorted(l for l in redecl if redecl[l])
+        rest = sorted(l for l in bad if not needed_by[l] and not redecl.get(l))
+        if ams:
+            count("cone:amended-static-input-redeclared:validated-before-reconfirmed")
+            fail(AMENDED_STATIC_SIGNATURE,
+                 f"({flavour}) edited {edited}; executed {executed}; steps with an amended STATIC input that an executed "
+                 f"step declares again, executed although nothing they read changed: { {l: redecl[l] for l in ams} }",
+                 {"edited": edited, "executed": executed, "unjustified": ams, "redeclared_inputs": {l: redecl[l] for l in ams},
+                  "flavour": flavour})
         if d38:
             count("cone:optional-step-needed-by-an-edited-plan")
             fail(OPTIONAL_UPSTREAM_SIGNATURE,
